@@ -34,7 +34,14 @@ type C13Case struct {
 	Tr      spsim.Transport `json:"transport"`
 	Defects []Defect        `json:"defects,omitempty"`
 	Noise   bool            `json:"noise,omitempty"`
+	// ReqHeaders: header lines of the HTTP request (what the user agent - or a script - announces about itself changes neither
+	// the verdict nor where the response goes)
+	ReqHeaders [][2]string `json:"request_headers,omitempty"`
 }
+
+var c13ReqHeaders = [][2]string{{"Accept", "application/xml"}, {"Accept", "text/xml, application/samlmetadata+xml"}, {"Accept", "application/json"}, {"Accept", "*/*;q=0"}, {"Accept", ""},
+	{"Accept", "text/html,application/xhtml+xml,application/xml;q=0.9,*/*;q=0.8"}, {"X-Requested-With", "XMLHttpRequest"}, {"User-Agent", "curl/8.0"}, {"Accept-Language", "de"}, {"Origin", "https://elsewhere.example"},
+	{"Referer", "https://elsewhere.example/x"}, {"Prefer", "return=minimal"}, {"Sec-Fetch-Mode", "cors"}, {"Content-Language", "en"}}
 
 var c13Defects = []Defect{
 	{Name: "issuer-absent"}, {Name: "issuer-empty"}, {Name: "issuer-unregistered"}, {Name: "issuer-case"}, {Name: "issuer-blank"},
@@ -89,6 +96,9 @@ func genC13Case(t *rapid.T) C13Case {
 		l.SessionIndex = append(l.SessionIndex, fmt.Sprintf("_s%d", i))
 	}
 	c.Style = genXMLStyle(t)
+	for i := rapid.IntRange(-2, 2).Draw(t, "nreqheaders"); i > 0; i-- {
+		c.ReqHeaders = append(c.ReqHeaders, rapid.SampledFrom(c13ReqHeaders).Draw(t, "reqheader"))
+	}
 	binding := rapid.SampledFrom([]string{"post", "redirect"}).Draw(t, "transport")
 	c.Tr = spsim.Transport{Binding: binding, Plus: true, Encoding: A, RelayState: xt.LegalString(5).Draw(t, "relay")}
 	if rapid.IntRange(0, 3).Draw(t, "norelay") == 0 {
@@ -232,6 +242,7 @@ func c13Render(c C13Case, now time.Time) obs.HTTPReq {
 		}
 	}
 	hr.Host = c.Host
+	hr.Headers = append(hr.Headers, c.ReqHeaders...)
 	return hr
 }
 
@@ -418,6 +429,10 @@ func c13Oracle(c C13Case, hr obs.HTTPReq, rep obs.Reply, sent *logoutSent) (vs [
 		if d.RelayState != sent.Relay && htmlNewlineNorm(d.RelayState) != htmlNewlineNorm(sent.Relay) {
 			add("relaystate", "RelayState field %q, submitted %q", d.RelayState, sent.Relay)
 		}
+	} else if success && sent.IssuerSP >= 0 && len(c.Spec.SPs[sent.IssuerSP].SLO) > 0 {
+		// "returned in the HTTP body when none is known": a location is known here, the Success response (with the RelayState)
+		// belongs to the provider
+		add("success-not-posted", "status Success for a provider with a registered SingleLogoutService (%q), but the response is returned in the body (%s) instead of being posted there", c.Spec.SPs[sent.IssuerSP].SLO[0].Location, d.Kind)
 	}
 	return
 }
